@@ -1512,6 +1512,12 @@ func (c *Client) checkConn(client *smtp.Client) error {
 		return ErrNoActiveConnection
 	}
 
+	// The deadline has to be in place before the NOOP, otherwise a server that accepts the
+	// connection but does not answer blocks the caller forever
+	if err := client.UpdateDeadline(c.connTimeout); err != nil {
+		return ErrDeadlineExtendFailed
+	}
+
 	c.mutex.RLock()
 	noNoop := c.noNoop
 	c.mutex.RUnlock()
@@ -1519,10 +1525,6 @@ func (c *Client) checkConn(client *smtp.Client) error {
 		if err := client.Noop(); err != nil {
 			return ErrNoActiveConnection
 		}
-	}
-
-	if err := client.UpdateDeadline(c.connTimeout); err != nil {
-		return ErrDeadlineExtendFailed
 	}
 	return nil
 }
